@@ -13,6 +13,19 @@ pub enum Fam {
     Swap,
     CountPair,
     Gkr,
+    /// items added / removed / duplicated with every dependent count and length kept consistent
+    Consistent,
+}
+
+/// one edit of a consistent multi-field mutant
+#[derive(Clone, Debug)]
+pub enum Edit {
+    /// replace `remove` bytes at `off` by `insert`
+    Splice { off: usize, remove: usize, insert: Vec<u8> },
+    /// add `delta` to the little-endian integer field at `off`
+    Add { off: usize, len: usize, delta: i64 },
+    /// set the little-endian integer field at `off`
+    Set { off: usize, len: usize, value: u64 },
 }
 
 pub struct MutSpace {
@@ -26,6 +39,7 @@ pub struct MutSpace {
     elems: Vec<usize>,  // indexes of Elem/Digest fields
     counts: Vec<usize>, // indexes of Count fields
     swaps: Vec<(usize, usize, usize)>, // (offset a, offset b, len) ranges to exchange
+    scripts: Vec<(String, Vec<Edit>)>,
 }
 
 const BYTE_VALUES: [u8; 5] = [0x00, 0x01, 0x7f, 0x80, 0xff];
@@ -53,6 +67,7 @@ impl MutSpace {
                 }
             }
         }
+        let scripts = if fams.contains(&Fam::Consistent) { consistent_scripts(&base, &layout) } else { vec![] };
         let l = base.len() as u64;
         let mut f = vec![];
         for fam in fams {
@@ -70,10 +85,11 @@ impl MutSpace {
                     c * c.saturating_sub(1) / 2 * 4
                 },
                 Fam::Gkr => 6,
+                Fam::Consistent => scripts.len() as u64,
             };
             f.push((*fam, n));
         }
-        MutSpace { base, layout, pm1, ext, fams: f, ctrl, elems, counts, swaps }
+        MutSpace { base, layout, pm1, ext, fams: f, ctrl, elems, counts, swaps, scripts }
     }
 
     pub fn len(&self) -> u64 {
@@ -266,6 +282,31 @@ impl MutSpace {
                 write_le(&mut b, g.off, g.len, vg);
                 label = format!("count fields {} and {} set to {} / {}", f.name, g.name, if vf == 0 { "0" } else { "max" }, if vg == 0 { "0" } else { "max" });
             },
+            Fam::Consistent => {
+                let (l, edits) = &self.scripts[idx as usize];
+                // apply from the highest offset down so that earlier offsets stay valid
+                let mut es = edits.clone();
+                es.sort_by_key(|e| std::cmp::Reverse(match e {
+                    Edit::Splice { off, .. } | Edit::Add { off, .. } | Edit::Set { off, .. } => *off,
+                }));
+                for e in es {
+                    match e {
+                        Edit::Splice { off, remove, insert } => {
+                            b.splice(off..off + remove, insert);
+                        },
+                        Edit::Add { off, len, delta } => {
+                            let cur = read_le(&b, off, len) as i64;
+                            let nv = cur + delta;
+                            if nv < 0 || (len < 8 && nv as u64 > Self::max_of(len)) {
+                                return None;
+                            }
+                            write_le(&mut b, off, len, nv as u64);
+                        },
+                        Edit::Set { off, len, value } => write_le(&mut b, off, len, value),
+                    }
+                }
+                label = l.clone();
+            },
             Fam::Gkr => {
                 let f = self.layout.fields.iter().find(|f| f.name == "gkr.flag")?;
                 let had = b[f.off] == 1;
@@ -365,4 +406,122 @@ fn classify(v: u64, orig: u64, mx: u64) -> &'static str {
     } else {
         "orig-1"
     }
+}
+
+
+/// Structure-consistent mutants: the proof's item counts are changed together with the payloads and
+/// lengths that depend on them, so that the byte string still parses (a deviation that single-field
+/// edits cannot reach, because the parser rejects the inconsistency first).
+pub fn consistent_scripts(b: &[u8], lay: &Layout) -> Vec<(String, Vec<Edit>)> {
+    let mut out: Vec<(String, Vec<Edit>)> = vec![];
+    let field = |n: &str| lay.fields.iter().find(|f| f.name == n);
+    let comp = |n: &str| lay.components.iter().find(|c| c.0 == n);
+    // ---- FRI layers
+    if let Some(nlf) = field("fri.num_layers") {
+        let nl = b[nlf.off] as usize;
+        let layer_range = |l: usize| -> Option<(usize, usize)> {
+            let s = field(&format!("fri.layer[{l}].values_len"))?.off;
+            let e = comp(&format!("fri.layer[{l}].paths"))?.4;
+            Some((s, e))
+        };
+        let end_of_layers = if nl > 0 { layer_range(nl - 1).map(|r| r.1) } else { Some(nlf.off + 1) };
+        if let Some(end) = end_of_layers {
+            let bump = |d: i64| Edit::Add { off: nlf.off, len: 1, delta: d };
+            if nl >= 1 {
+                if let Some((s, e)) = layer_range(nl - 1) {
+                    out.push(("FRI: copy of the last layer appended (layer count + 1)".into(), vec![bump(1), Edit::Splice { off: end, remove: 0, insert: b[s..e].to_vec() }]));
+                    out.push(("FRI: last layer removed (layer count - 1)".into(), vec![bump(-1), Edit::Splice { off: s, remove: e - s, insert: vec![] }]));
+                }
+                if let Some((s, e)) = layer_range(0) {
+                    if nl >= 2 {
+                        out.push(("FRI: copy of the first layer appended (layer count + 1)".into(), vec![bump(1), Edit::Splice { off: end, remove: 0, insert: b[s..e].to_vec() }]));
+                        out.push(("FRI: first layer removed (layer count - 1)".into(), vec![bump(-1), Edit::Splice { off: s, remove: e - s, insert: vec![] }]));
+                    }
+                    out.push(("FRI: copy of the first layer prepended (layer count + 1)".into(), vec![bump(1), Edit::Splice { off: s, remove: 0, insert: b[s..e].to_vec() }]));
+                }
+            }
+            out.push(("FRI: an empty layer appended (layer count + 1)".into(), vec![bump(1), Edit::Splice { off: end, remove: 0, insert: vec![0u8; 8] }]));
+        }
+        if let Some((_, lo, ll, ps, pe)) = comp("fri.remainder") {
+            let n = pe - ps;
+            out.push(("FRI: remainder padded with zero coefficients to twice its length".into(), vec![Edit::Add { off: *lo, len: *ll, delta: n as i64 }, Edit::Splice { off: *pe, remove: 0, insert: vec![0u8; n] }]));
+            out.push(("FRI: remainder repeated twice".into(), vec![Edit::Add { off: *lo, len: *ll, delta: n as i64 }, Edit::Splice { off: *pe, remove: 0, insert: b[*ps..*pe].to_vec() }]));
+            if n >= 2 && n % 2 == 0 {
+                out.push(("FRI: upper half of the remainder removed".into(), vec![Edit::Add { off: *lo, len: *ll, delta: -((n / 2) as i64) }, Edit::Splice { off: ps + n / 2, remove: n / 2, insert: vec![] }]));
+            }
+        }
+    }
+    // ---- OOD frame: frame size against the number of states
+    if let (Some(fs), Some((_, lo, ll, ps, pe))) = (field("ood.frame_size"), comp("ood.trace_states")) {
+        let (s, e) = (ps + 1, *pe); // states after the frame-size byte
+        let n = e - s;
+        let set = |v: u64| Edit::Set { off: fs.off, len: 1, value: v };
+        if n >= 2 && n % 2 == 0 {
+            out.push(("OOD: frame size 1 with the first half of the states".into(), vec![set(1), Edit::Add { off: *lo, len: *ll, delta: -((n / 2) as i64) }, Edit::Splice { off: s + n / 2, remove: n / 2, insert: vec![] }]));
+            out.push(("OOD: frame size 3 with half of the states repeated".into(), vec![set(3), Edit::Add { off: *lo, len: *ll, delta: (n / 2) as i64 }, Edit::Splice { off: e, remove: 0, insert: b[s..s + n / 2].to_vec() }]));
+        }
+        out.push(("OOD: frame size 4 with all states repeated".into(), vec![set(4), Edit::Add { off: *lo, len: *ll, delta: n as i64 }, Edit::Splice { off: e, remove: 0, insert: b[s..e].to_vec() }]));
+        out.push(("OOD: frame size 0 with no states".into(), vec![set(0), Edit::Add { off: *lo, len: *ll, delta: -(n as i64) }, Edit::Splice { off: s, remove: n, insert: vec![] }]));
+    }
+    // ---- Lagrange frame: count against the elements
+    if let Some((_, lo, ll, ps, pe)) = comp("ood.lagrange") {
+        let elem = lay.fields.iter().find(|f| f.name.starts_with("ood.evaluation[")).map(|f| f.len).unwrap_or(8);
+        if pe > ps {
+            let cnt = b[*ps] as usize;
+            let cf = *ps;
+            let last = if cnt > 0 { b[pe - elem..*pe].to_vec() } else { vec![0u8; elem] };
+            out.push(("OOD: one more Lagrange-kernel state (count + 1)".into(), vec![Edit::Add { off: cf, len: 1, delta: 1 }, Edit::Add { off: *lo, len: *ll, delta: elem as i64 }, Edit::Splice { off: *pe, remove: 0, insert: last.clone() }]));
+            if cnt == 0 {
+                let mut two = last.clone();
+                two.extend(&last);
+                out.push(("OOD: two Lagrange-kernel states where there were none".into(), vec![Edit::Set { off: cf, len: 1, value: 2 }, Edit::Add { off: *lo, len: *ll, delta: 2 * elem as i64 }, Edit::Splice { off: *pe, remove: 0, insert: two }]));
+            } else {
+                out.push(("OOD: last Lagrange-kernel state removed (count - 1)".into(), vec![Edit::Add { off: cf, len: 1, delta: -1 }, Edit::Add { off: *lo, len: *ll, delta: -(elem as i64) }, Edit::Splice { off: pe - elem, remove: elem, insert: vec![] }]));
+                out.push(("OOD: all Lagrange-kernel states removed (count 0)".into(), vec![Edit::Set { off: cf, len: 1, value: 0 }, Edit::Add { off: *lo, len: *ll, delta: -((pe - ps - 1) as i64) }, Edit::Splice { off: ps + 1, remove: pe - ps - 1, insert: vec![] }]));
+            }
+        }
+    }
+    // ---- Merkle paths: node counts against the nodes, vector count against the vectors
+    for (name, lo, ll, ps, pe) in lay.components.iter().filter(|c| c.0.ends_with(".paths")) {
+        if pe == ps {
+            continue;
+        }
+        let nvf = lay.fields.iter().find(|f| f.off == *ps);
+        let Some(nvf) = nvf else { continue };
+        out.push((format!("{name}: an empty node vector appended (vector count + 1)"), vec![Edit::Add { off: nvf.off, len: 1, delta: 1 }, Edit::Add { off: *lo, len: *ll, delta: 1 }, Edit::Splice { off: *pe, remove: 0, insert: vec![0u8] }]));
+        let counts: Vec<&starkit::codec::Field> = lay.fields.iter().filter(|f| f.off > *ps && f.off < *pe && f.kind == FKind::Count && f.name.ends_with(".count")).collect();
+        for (vi, cf) in counts.iter().enumerate() {
+            let c = b[cf.off] as usize;
+            // nodes of this vector follow its count byte
+            let dl = lay.fields.iter().find(|f| f.off == cf.off + 1 && f.kind == FKind::Digest).map(|f| f.len);
+            if let Some(dl) = dl {
+                let end = cf.off + 1 + c * dl;
+                if end <= *pe && c >= 1 {
+                    out.push((format!("{name}: last node of vector {vi} removed (count - 1)"), vec![Edit::Add { off: cf.off, len: 1, delta: -1 }, Edit::Add { off: *lo, len: *ll, delta: -(dl as i64) }, Edit::Splice { off: end - dl, remove: dl, insert: vec![] }]));
+                    out.push((format!("{name}: first node of vector {vi} removed (count - 1)"), vec![Edit::Add { off: cf.off, len: 1, delta: -1 }, Edit::Add { off: *lo, len: *ll, delta: -(dl as i64) }, Edit::Splice { off: cf.off + 1, remove: dl, insert: vec![] }]));
+                    out.push((format!("{name}: last node of vector {vi} repeated (count + 1)"), vec![Edit::Add { off: cf.off, len: 1, delta: 1 }, Edit::Add { off: *lo, len: *ll, delta: dl as i64 }, Edit::Splice { off: end, remove: 0, insert: b[end - dl..end].to_vec() }]));
+                    out.push((format!("{name}: all nodes of vector {vi} removed (count 0)"), vec![Edit::Set { off: cf.off, len: 1, value: 0 }, Edit::Add { off: *lo, len: *ll, delta: -((c * dl) as i64) }, Edit::Splice { off: cf.off + 1, remove: c * dl, insert: vec![] }]));
+                }
+            }
+        }
+    }
+    // ---- query tables: a row removed / repeated together with the number of unique queries
+    if let Some(nq) = field("num_unique_queries") {
+        let q = b[nq.off] as usize;
+        let tables: Vec<&(String, usize, usize, usize, usize)> = lay.components.iter().filter(|c| c.0.ends_with(".values") && !c.0.starts_with("fri.")).collect();
+        if q >= 2 && tables.iter().all(|t| (t.4 - t.3) % q == 0 && t.4 > t.3) {
+            let mut rm = vec![Edit::Add { off: nq.off, len: 1, delta: -1 }];
+            let mut dup = vec![Edit::Add { off: nq.off, len: 1, delta: 1 }];
+            for (_, lo, ll, ps, pe) in tables.iter().map(|t| (*t).clone()) {
+                let row = (pe - ps) / q;
+                rm.push(Edit::Add { off: lo, len: ll, delta: -(row as i64) });
+                rm.push(Edit::Splice { off: pe - row, remove: row, insert: vec![] });
+                dup.push(Edit::Add { off: lo, len: ll, delta: row as i64 });
+                dup.push(Edit::Splice { off: pe, remove: 0, insert: b[pe - row..pe].to_vec() });
+            }
+            out.push(("queries: last row of every query table removed (unique query count - 1)".into(), rm));
+            out.push(("queries: last row of every query table repeated (unique query count + 1)".into(), dup));
+        }
+    }
+    out
 }
